@@ -113,6 +113,14 @@ def programs(tier: str):
     # function arguments far beyond the small limits
     # FINE and huge delays (9/8192 s, attempt/2048 + 1/16384 s, 2**20 + 0.5 s): exact dyadic values far
     # off the millisecond grid
+    # inside a scope whose name contains formatting characters; delays given as IntEnum member /
+    # float subclass instance
+    for mode in ("sync", "async"):
+        for name in ("retry 100%", "%s %(x)s"):
+            yield {"limit": 2, "catching": "class", "delay": "none", "mode": mode, "scoped": True, "scope_name": name}
+        for delay in ("intenum", "floatsub"):
+            for limit in (1, 2):
+                yield {"limit": limit, "catching": "class", "delay": delay, "mode": mode, "scoped": False}
     for limit in (1, 2, 4):
         for delay in ("fine", "fn-fine", "big"):
             for mode in ("sync", "async"):
@@ -524,6 +532,12 @@ def execute(program, ch: Chooser) -> Result:  # noqa: C901, PLR0912, PLR0915
     elif delay == "fn-varargs":
         # a delay function that declares a single var-positional parameter (a forwarding wrapper)
         kwargs["delay"] = lambda *details: delay_fn(*details)
+    elif delay == "intenum":
+        import enum as _enum
+
+        kwargs["delay"] = _enum.IntEnum("Backoff", {"SHORT": 2}).SHORT  # an int subclass instance
+    elif delay == "floatsub":
+        kwargs["delay"] = type("Seconds", (float,), {})(0.5)  # a float subclass instance
     elif delay == "fine":
         kwargs["delay"] = 1 / 1024 + 1 / 8192  # far off the millisecond grid, exact in binary
     elif delay == "big":
@@ -558,7 +572,7 @@ def execute(program, ch: Chooser) -> Result:  # noqa: C901, PLR0912, PLR0915
                     got["out"] = ("raised", exc)
 
             if scoped:
-                with ctx.scope("retry-scope"):
+                with ctx.scope(program.get("scope_name", "retry-scope")):
                     run_sync()
             else:
                 run_sync()
@@ -572,7 +586,7 @@ def execute(program, ch: Chooser) -> Result:  # noqa: C901, PLR0912, PLR0915
             async def main():
                 try:
                     if scoped:
-                        async with ctx.scope("retry-scope"):
+                        async with ctx.scope(program.get("scope_name", "retry-scope")):
                             got["out"] = ("value", await afn(arg_obj, kw=kw_obj))
                     else:
                         got["out"] = ("value", await afn(arg_obj, kw=kw_obj))
@@ -636,7 +650,7 @@ def execute(program, ch: Chooser) -> Result:  # noqa: C901, PLR0912, PLR0915
         retries = len(calls) - 1
         exp_pauses: list[float] = []
         for k in range(1, retries + 1):
-            exp_pauses.append({"none": 0.0, "int": 2.0, "float": 0.5, "fn": 0.25 * k, "fn-int": 2.0 * k, "zero": 0.0, "zerof": 0.0, "fine": 1 / 1024 + 1 / 8192, "big": float(2**20) + 0.5, "fn-fine": k / 2048 + 1 / 16384}[delay])
+            exp_pauses.append({"none": 0.0, "int": 2.0, "intenum": 2.0, "floatsub": 0.5, "float": 0.5, "fn": 0.25 * k, "fn-int": 2.0 * k, "zero": 0.0, "zerof": 0.0, "fine": 1 / 1024 + 1 / 8192, "big": float(2**20) + 0.5, "fn-fine": k / 2048 + 1 / 16384}[delay])
         if len(calls) == exp_calls:
             deltas = [calls[i + 1]["t"] - calls[i]["t"] for i in range(retries)]
             if deltas != exp_pauses:
